@@ -2,7 +2,7 @@ import sys; sys.path.insert(0, __import__('os').path.dirname(__import__('os').pa
 import importlib
 from pyvc.verify import verify, verify_lemma
 c = importlib.import_module('contracts.'+sys.argv[1])
-sel = sys.argv[2:] 
+sel = [a for a in sys.argv[2:] if a != '-v']
 for l in c.LEMMAS:
     if sel and l.name not in sel: continue
     r = verify_lemma(l); print(r.as_dict())
